@@ -288,6 +288,44 @@ def gen_template(rng):
     return ops, nreq, nconn
 
 
+def gen_idle_state(rng):
+    """idle list driven to its limit, then entries die in place: a burst of max_idle+k HTTP/1 requests is served,
+    max_idle of them are released (idle list full), the peer closes some connections (idle and held ones),
+    the remaining ones are released, newcomers check out (pop walks over dead entries)"""
+    key = rng.randrange(7)
+    m = rng.choice([1, 1, 2, 3])
+    n = m + rng.choice([1, 1, 2])
+    rs = list(range(n))
+    ops = [["I", key, 1] for _ in rs] + [["P", r] for r in rs] + [["D", r, "o"] for r in rs] + [["P", r] for r in rs]
+    order = rs[:]
+    rng.shuffle(order)
+    first, rest = order[:m], order[m:]
+    for r in first:
+        ops += [["F", r], ["P", r], ["R", r]]
+    ops.append(["B"])
+    dead = rng.sample(first, rng.randint(1, len(first)))
+    if rng.random() < 0.25:
+        dead.append(rng.choice(rest))
+    for c in dead:
+        ops.append(["C", c])
+    if rng.random() < 0.3:
+        ops.append(["B"])
+    for r in rest:
+        ops += [["F", r], ["P", r]]
+        if rng.random() < 0.9:
+            ops.append(["R", r])
+    ops.append(["B"])
+    k = rng.choice([1, 2, n])
+    ops += [["I", key, 1] for _ in range(k)] + [["P", n + j] for j in range(k)]
+    nreq, nconn = n + k, n
+    ops = [o for o in ops if o[0] == "I" or rng.random() > 0.04]
+    for _ in range(rng.choice([0, 0, 1])):
+        pos = rng.randrange(len(ops) + 1)
+        ops.insert(pos, rng.choice([["B"], ["P", rng.randrange(nreq)], ["R", rng.randrange(nconn)], ["C", rng.randrange(nconn)],
+                                    ["X", rng.randrange(nreq)]]))
+    return ops, nreq, nconn, m
+
+
 def gen_phased(rng, timed):
     """histories built from phases (burst of requests served, partial release + hand-back, clock tick, peer
     closes, newcomers) so that idle lists hold several entries of different ages and states"""
@@ -393,6 +431,9 @@ class Pool(Plugin):
         if not timed and x > 0.85:
             ops, nreq, nconn = gen_template(rng)
             mi = rng.choice([1, 1, 2, mi])
+        elif not timed and x > 0.79:
+            ops, nreq, nconn, m = gen_idle_state(rng)
+            mi = rng.choice([m, m, m, mi])
         elif timed and x < 0.5:
             ops, nreq, nconn = gen_aging(rng)
         elif x < (0.7 if timed else 0.3):
@@ -416,7 +457,8 @@ class Pool(Plugin):
                                "re-issue injected into the window between an Issue and its first poll), phase-structured histories "
                                "(bursts served, partial releases + hand-back, ticks, peer closes, newcomers), timed 'aging' histories "
                                f"(real sleeps: {TICK_MS} ms ticks vs a {TIMEOUT_MS} ms idle timeout; {kinds['timed']} timed cases) and perturbed interleaving "
-                               "templates (pre-empted owner, pop window, push-back, failing owner, refill at the idle limit); 1-3 origins "
+                               "templates (pre-empted owner, pop window, push-back, failing owner, refill at the idle limit, owner dropped) and idle-limit "
+                               "histories (idle list driven to max_idle, entries closed in place, further releases, newcomers); 1-3 origins "
                                "from a table of 7 URIs differing in scheme/port/host/case + one without scheme, h1/h2/ALPN mixed, dial "
                                f"outcomes ok/alpn/connect-error/handshake-error; {kinds['drained']} cases end with the closing procedure + probe",
                        "exhaustive": False}
